@@ -41,19 +41,46 @@ def r19_1(ctx):
         raise FactError("anchor not found: impl PartialEq for Object")
     f = fs[0]
     lens = [(b, t) for b, t in f.calls() if callee_is(t, "len")]
-    iters = [(b, t) for b, t in f.calls() if callee_is(t, "iter") and "Object" in t["callee"]]
+    # the enumerations, lookups and comparisons of Object::eq, in its own body, its closures and the private helpers of
+    # the same file it hands its operands to (their parameters are bound to the operands of eq along the call chain)
+    stats = {"iters": [], "it_params": set(), "gets": 0, "looks": 0, "cmp_sites": 0, "cmp_bodies": []}
+    def walk(fn, binding, depth):
+        for b, t in fn.calls():
+            a0 = op_local(t["args"][0]) if t["args"] else None
+            roots = set()
+            if a0 is not None:
+                for p_ in _params_of(fn, a0)[0]:
+                    roots |= binding.get(p_, set())
+            if callee_is(t, "iter") and "Object" in t["callee"]:
+                stats["iters"].append((fn, b, t))
+                stats["it_params"] |= roots
+            if callee_is(t, "get", "contains_key", "get_key_value") and "Object" in t["callee"]:
+                stats["looks"] += 1
+                if callee_is(t, "get"):
+                    stats["gets"] += 1
+            if callee_is(t, "eq", "ne") and (fn.id != f.id or "Option" in " ".join(t.get("rgargs") or t.get("gargs") or [])):
+                stats["cmp_sites"] += 1
+                stats["cmp_bodies"].append(fn)
+            g = prog.fns.get(t["callee"])
+            if g is not None and g.crate == "sonic_rs" and g.file == f.file and g.id != f.id and not (g.self_adt or "").endswith("Object") and depth < 3:
+                nb = {}
+                for k_, a in enumerate(t["args"], start=1):
+                    la = op_local(a)
+                    if la is not None:
+                        nb[k_] = set().union(*[binding.get(p_, set()) for p_ in _params_of(fn, la)[0]] or [set()])
+                walk(g, nb, depth + 1)
+        for c in prog.closures_of(fn):
+            walk(c, {}, depth + 1)
+    walk(f, {1: {1}, 2: {2}}, 0)
+    iters = [(b, t) for fn_, b, t in stats["iters"]]
     len_params = set()
     for b, t in lens:
         ps, _ = _params_of(f, op_local(t["args"][0]))
         len_params |= ps
-    ok_len = len(lens) >= 2 and {1, 2} <= len_params and all(f.dominates(lb, ib) for lb, lt in lens for ib, it in iters)
-    it_params = set()
-    for b, t in iters:
-        ps, _ = _params_of(f, op_local(t["args"][0]))
-        it_params |= ps
+    own_iters = [(b, t) for fn_, b, t in stats["iters"] if fn_.id == f.id]
+    ok_len = len(lens) >= 2 and {1, 2} <= len_params and all(f.dominates(lb, ib) for lb, lt in lens for ib, it in own_iters)
+    it_params = stats["it_params"]
     both = {1, 2} <= it_params
-    # with both operands enumerated the relation is symmetric with or without the length test; with one operand
-    # enumerated the length test is what keeps a proper subset from comparing equal
     ctx.ob("R19.1", "Object::eq:lengths-first", ok_len or both, f.loc(), "the lengths of both operands are compared before any member" if ok_len else
            ("no length test, but both operands are enumerated" if both else "one operand is enumerated and the member comparison is not preceded by a comparison of both lengths: a subset compares equal in one direction"))
     ctx.ob("R19.1", "Object::eq:quantifies-over-both-operands", both, f.loc(iters[0][1]["ln"]) if iters else f.loc(),
@@ -61,17 +88,15 @@ def r19_1(ctx):
            f"only the members of operand {sorted(it_params)} are enumerated: with a repeated name on that side a name that only the other side has is never looked at, so a == b and b == a differ")
     # each enumeration compares get() of both operands (closure form `iter().all(|..| ..)` or plain loops)
     bodies = prog.with_closures(f)
-    gets = sum(1 for g in bodies for b, t in g.calls() if callee_is(t, "get") and "Object" in t["callee"])
-    cmps = sum(1 for g in bodies for b, t in g.calls() if callee_is(t, "eq", "ne") and g.id != f.id or (callee_is(t, "eq", "ne") and "Option" in " ".join(t.get("rgargs") or t.get("gargs") or [])))
-    looks = sum(1 for g in bodies for b, t in g.calls() if callee_is(t, "get", "contains_key", "get_key_value") and "Object" in t["callee"])
+    gets, looks, cmps = stats["gets"], stats["looks"], stats["cmp_sites"]
     # one enumeration compares get(name) of both operands (two lookups and a comparison); a further enumeration has at
     # least to look its names up in the other operand
     okc = bool(iters) and cmps >= 1 and gets >= 2 and looks >= len(iters) + 1
     ctx.ob("R19.1", "Object::eq:members-compared-by-lookup", okc, f.loc(), f"{len(iters)} enumeration(s), {looks} lookups by name, {cmps} comparison(s) of looked-up values: one enumeration compares get(name) of both operands, the other looks its names up in the first")
     # ... and only one: comparing the values again in the second enumeration doubles the work at every nesting level
     # (2^depth comparisons for nested single-member objects)
-    cmp_bodies = [g for g in bodies if any(callee_is(t, "eq", "ne") and (g.id != f.id or "Option" in " ".join(t.get("rgargs") or t.get("gargs") or [])) for b, t in g.calls())]
-    n_sites = sum(1 for g in bodies for b, t in g.calls() if callee_is(t, "eq", "ne") and (g.id != f.id or "Option" in " ".join(t.get("rgargs") or t.get("gargs") or [])))
+    cmp_bodies = stats["cmp_bodies"]
+    n_sites = stats["cmp_sites"]
     ctx.ob("R19.1", "Object::eq:values-compared-once", n_sites <= 1, (cmp_bodies[0] if cmp_bodies else f).loc(),
            "the member values are compared in one enumeration only" if n_sites <= 1 else
            f"the member values are compared in {n_sites} enumerations: every nesting level multiplies the work (a == b on objects nested 40 deep does not finish)")
